@@ -22,7 +22,7 @@ FUNCTIONS_ENCODED = ['pgpy.decorators.KeyAction.usage', 'pgpy.decorators.KeyActi
                      'pgpy.pgp.PGPSignature.new (issuer)', 'pgpy.pgp.PGPKey._sign (issuer fingerprint)']
 STUBS = ['signature primitive -> oracle', 'PKESessionKeyV3.encrypt_sk / decrypt_sk -> record which key packet was used, hand back a fixed session key',
          'cipher / entropy stand-ins of harness/encfix.py']
-OUTSIDE = ['more than two subkeys; identities with different flags (one identity per key)', 'algorithm capability (a component flagged for encryption whose algorithm cannot encrypt)']
+OUTSIDE = ['more than two subkeys; more than two identities', 'algorithm capability (a component flagged for encryption whose algorithm cannot encrypt)']
 ASSUMPTIONS = ['"most recent self-signature": the binding / certification with the latest creation time']
 
 T_OLD = datetime.fromtimestamp(1_600_000_000, timezone.utc)
@@ -192,6 +192,54 @@ def enforcement_off(f0: int, f1: int, f2: int) -> bool:
         undo()
 
 
+def build_two_ids():
+    k = PGPKey.new(PubKeyAlgorithm.EdDSA, EllipticCurveOID.Ed25519, created=T_OLD)
+    k.add_uid(PGPUID.new('Alice Smith', comment='work', email='alice@example.org'), usage={KeyFlags.Certify}, hashes=[HashAlgorithm.SHA256], primary=True, created=T_OLD)
+    k.add_uid(PGPUID.new('Alice'), usage={KeyFlags.Certify}, hashes=[HashAlgorithm.SHA256], created=T_OLD)
+    s1 = PGPKey.new(PubKeyAlgorithm.EdDSA, EllipticCurveOID.Ed25519, created=T_OLD)
+    k.add_subkey(s1, usage={KeyFlags.Authentication}, created=T_OLD)
+    return k
+
+
+KEYU = build_two_ids()
+NAMES = ('Alice Smith', 'Alice', 'work', 'alice@example.org')
+
+
+@ob('O16.5', 'choice of identity: with user=<name> the capability check uses the flags of exactly the identity carrying that name / comment / e-mail - not of another identity that '
+             'merely contains the string - and the signature names the component so chosen', 'two identities ("Alice Smith" with comment and e-mail, and "Alice") and one subkey, capability sets by symbolic index from 7 each; '
+             'selector over {both names, the comment, the e-mail}', cond_timeout={'q': 280, 't': 900}, partitions=[['ni == %d' % i] for i in range(4)])
+def identity_choice(ni: int, fa: int, fb: int, fs: int) -> bool:
+    """
+    pre: 0 <= ni < 4
+    pre: 0 <= fa < 7 and 0 <= fb < 7 and 0 <= fs < 7
+    post: _
+    """
+    ua, ub = KEYU.get_uid('Alice Smith'), None
+    for u in KEYU.userids:
+        if u.name == 'Alice':
+            ub = u
+    sub = list(KEYU.subkeys.values())[0]
+    set_flags(ua.selfsig, pick(fa))
+    set_flags(ub.selfsig, pick(fb))
+    set_flags(next(sub.self_signatures), pick(fs))
+    name = NAMES[0]
+    for k in range(4):
+        if ni == k:
+            name = NAMES[k]
+    named = ub if name == 'Alice' else ua
+    eff_primary = {KeyFlags.Certify} | set(pick(fb) if named is ub else pick(fa))
+    want = 0 if KeyFlags.Sign in eff_primary else (1 if KeyFlags.Sign in set(pick(fs)) else None)
+    Oracle.reset()
+    try:
+        sig = KEYU.sign(b'doc', user=name, created=T_NEW, hash=HashAlgorithm.SHA256)
+    except PGPError:
+        return want is None
+    if want is None:
+        return False
+    comp = KEYU if want == 0 else sub
+    return sig.signer == comp.fingerprint.keyid
+
+
 LOCKED = new_key('locked', sub=True)
 LOCKED.protect('pw', K.SymmetricKeyAlgorithm.AES128, HashAlgorithm.SHA1)
 NOID = PGPKey.new(PubKeyAlgorithm.EdDSA, EllipticCurveOID.Ed25519, created=T_OLD)
@@ -287,5 +335,5 @@ def decrypt_finds_subkey(r: int) -> bool:
 
 SANITY = ['selects_component(0, 2, 0, 0, False, 0)', 'selects_component(0, 1, 2, 0, False, 0)', 'selects_component(0, 1, 5, 2, False, 0)', 'selects_component(0, 1, 5, 5, False, 0)',
           'selects_component(1, 0, 0, 0, False, 0)', 'selects_component(2, 1, 0, 3, False, 0)', 'selects_component(2, 1, 2, 5, False, 0)', 'selects_component(0, 1, 5, 0, True, 2)',
-          'selects_component(0, 1, 2, 0, True, 5)', 'enforcement_off(1, 5, 5)', 'enforcement_off(1, 2, 0)'] + ['precondition_matrix(%d, %d)' % (f, o) for f in range(5) for o in range(7)] + \
+          'selects_component(0, 1, 2, 0, True, 5)', 'identity_choice(1, 2, 1, 0)', 'identity_choice(0, 2, 1, 0)', 'identity_choice(1, 1, 2, 2)', 'identity_choice(3, 0, 2, 5)', 'identity_choice(2, 4, 0, 0)', 'enforcement_off(1, 5, 5)', 'enforcement_off(1, 2, 0)'] + ['precondition_matrix(%d, %d)' % (f, o) for f in range(5) for o in range(7)] + \
          ['decrypt_finds_subkey(%d)' % r for r in range(4)]
